@@ -205,7 +205,198 @@ def fault_sites(events, key=None):
     return out
 
 
-def run_proc(argv, env, stdin=None, stdout=None, stderr=None, cwd=None, timeout=20, fds=None):
-    """Run a program; stdin/stdout/stderr: bytes (-> temp file), file object, or None(/dev/null).
-    Returns (status, outbytes, errbytes); status <0 = killed by signal; None = watchdog (inconclusive)."""
-    raise NotImplementedError
+STANDIN = os.path.join(vlib.VERIF, "shim", "standin")
+
+
+def _devnull():
+    return open(os.devnull, "r+b")
+
+
+def run_proc(argv, env, stdin=b"", timeout=20, cwd="/", extra_fds=None, stdin_file=None):
+    """Run a program to completion with `stdin` bytes. Children never inherit the check's stdout/stderr.
+    Returns (status, stdout_bytes, stderr_bytes); status < 0 = killed by that signal; None = watchdog expired
+    (always to be counted as inconclusive, never as a violation)."""
+    import tempfile
+    d = vlib.scratch_root()
+    with tempfile.TemporaryFile(dir=d) as fo, tempfile.TemporaryFile(dir=d) as fe:
+        if stdin_file is not None:
+            fi = open(stdin_file, "rb")
+        else:
+            fi = tempfile.TemporaryFile(dir=d)
+            fi.write(stdin)
+            fi.seek(0)
+        try:
+            p = subprocess.Popen(argv, stdin=fi, stdout=fo, stderr=fe, env=env, cwd=cwd, start_new_session=True,
+                                 pass_fds=tuple(extra_fds or ()))
+            try:
+                rc = p.wait(timeout=timeout)
+            except subprocess.TimeoutExpired:
+                rc = None
+            try:
+                os.killpg(p.pid, signal.SIGKILL)
+            except ProcessLookupError:
+                pass
+            if rc is None:
+                p.wait()
+        finally:
+            fi.close()
+        fo.seek(0)
+        fe.seek(0)
+        return rc, fo.read(), fe.read()
+
+
+class Session:
+    """Interactive child: the driver writes to its stdin and reads replies from its stdout through pipes.
+    stderr goes to a file. Always kill() in a finally."""
+
+    def __init__(self, argv, env, cwd="/", pass_fds=()):
+        import tempfile
+        self.errf = tempfile.TemporaryFile(dir=vlib.scratch_root())
+        self.p = subprocess.Popen(argv, stdin=subprocess.PIPE, stdout=subprocess.PIPE, stderr=self.errf, env=env, cwd=cwd,
+                                  start_new_session=True, bufsize=0, pass_fds=pass_fds)
+        self.buf = b""
+        self.eof = False
+        os.set_blocking(self.p.stdout.fileno(), False)
+
+    def send(self, data):
+        try:
+            self.p.stdin.write(data)
+            return True
+        except (BrokenPipeError, OSError):
+            return False
+
+    def close_stdin(self):
+        try:
+            self.p.stdin.close()
+        except Exception:
+            pass
+
+    def _fill(self, timeout):
+        import select
+        r, _, _ = select.select([self.p.stdout], [], [], timeout)
+        if not r:
+            return False
+        try:
+            d = os.read(self.p.stdout.fileno(), 65536)
+        except BlockingIOError:
+            return True
+        if not d:
+            self.eof = True
+            return False
+        self.buf += d
+        return True
+
+    def read_until(self, pred, timeout=20):
+        """Read until pred(buffer) returns an end index (int) or EOF/timeout. Returns the consumed bytes or None on watchdog."""
+        t_end = time.time() + timeout
+        while True:
+            k = pred(self.buf)
+            if k:
+                out, self.buf = self.buf[:k], self.buf[k:]
+                return out
+            if self.eof:
+                out, self.buf = self.buf, b""
+                return out
+            left = t_end - time.time()
+            if left <= 0:
+                return None
+            self._fill(left)
+
+    def read_line(self, timeout=20):
+        return self.read_until(lambda b: (b.find(b"\n") + 1) or None, timeout)
+
+    def read_all(self, timeout=20):
+        t_end = time.time() + timeout
+        while not self.eof:
+            left = t_end - time.time()
+            if left <= 0:
+                return None
+            self._fill(left)
+        out, self.buf = self.buf, b""
+        return out
+
+    def wait(self, timeout=20):
+        try:
+            return self.p.wait(timeout=timeout)
+        except subprocess.TimeoutExpired:
+            return None
+
+    def kill(self):
+        try:
+            os.killpg(self.p.pid, signal.SIGKILL)
+        except ProcessLookupError:
+            pass
+        try:
+            self.p.wait(timeout=5)
+        except Exception:
+            pass
+        for f in (self.p.stdin, self.p.stdout, self.errf):
+            try:
+                f.close()
+            except Exception:
+                pass
+
+
+def standin_env(recdir, read="", qq=False, exit=0, kill=None, fd6=None, out=None, exec_=False, exit_seq=None):
+    """Environment entries that script shim/standin (see shim/standin.c)."""
+    os.makedirs(recdir, exist_ok=True)
+    e = {"SI_DIR": recdir}
+    if read:
+        e["SI_READ"] = read
+    if qq:
+        e["SI_QQ"] = "1"
+    if exit:
+        e["SI_EXIT"] = str(exit)
+    if exit_seq:
+        e["SI_EXIT_SEQ"] = ",".join(str(x) for x in exit_seq)
+    if kill:
+        e["SI_KILL"] = str(kill)
+    if fd6 is not None:
+        e["SI_FD6_HEX"] = fd6.hex()
+    if out is not None:
+        e["SI_OUT_HEX"] = out.hex()
+    if exec_:
+        e["SI_EXEC"] = "1"
+    return e
+
+
+def standin_records(recdir):
+    """-> list of dicts (ordered by meta file mtime then pid) {pid, argv:[bytes], fd0, fd1, fd3, commit:bool, meta:{}}"""
+    recs = {}
+    if not os.path.isdir(recdir):
+        return []
+    for f in os.listdir(recdir):
+        if f.startswith(".") or "." not in f:
+            continue
+        pid, ext = f.split(".", 1)
+        if not pid.isdigit():
+            continue
+        r = recs.setdefault(int(pid), {"pid": int(pid), "commit": False})
+        p = os.path.join(recdir, f)
+        if ext == "commit":
+            r["commit"] = True
+        elif ext == "argv":
+            r["argv"] = open(p, "rb").read().split(b"\0")[:-1]
+            r["t"] = os.stat(p).st_mtime_ns
+        elif ext == "meta":
+            r["meta"] = dict(l.split("=", 1) for l in open(p).read().split("\n") if "=" in l)
+        else:
+            r[ext] = open(p, "rb").read()
+    return sorted(recs.values(), key=lambda r: (r.get("t", 0), r["pid"]))
+
+
+def parse_envelope(b):
+    """qmail-queue envelope bytes -> (sender, [recipients]) or None if malformed"""
+    if not b or b[:1] != b"F":
+        return None
+    parts = b.split(b"\0")
+    # well formed: F<s> \0 T<r> \0 ... \0 (empty) -> parts = [F.., T.., ..., b"", (rest)]
+    sender = parts[0][1:]
+    rc = []
+    for x in parts[1:]:
+        if x == b"":
+            return sender, rc
+        if x[:1] != b"T":
+            return None
+        rc.append(x[1:])
+    return None
